@@ -98,20 +98,20 @@ def main():
     props = args or ["C%02d" % i for i in range(1, 20)]
     total = {}
     per_prop = {}
-    for prop in props:
+    for prop, seed in [(p, sd) for p in props for sd in ("0", "7")]:   # chunk seed 0 runs the exhaustive sweeps
         mod = os.path.join(VERIF, "harness", "props", prop.lower() + ".py")
         if not os.path.exists(mod) or "def generate" not in open(mod).read():
             continue
         with tempfile.TemporaryDirectory(prefix="cov", dir="/tmp") as td:
             out = os.path.join(td, "hits.json")
-            script = TRACER % (REPO_SRC, [prop, "7", str(n_ops), td], os.path.join(VERIF, "harness"), out)
+            script = TRACER % (REPO_SRC, [prop, seed, str(n_ops), td], os.path.join(VERIF, "harness"), out)
             p = subprocess.run(["/venv/bin/python", "-c", script], stdout=subprocess.PIPE, stderr=subprocess.STDOUT,
                                text=True, timeout=3000, env=dict(os.environ, MEASURED_REPO=os.environ.get("MEASURED_REPO", "/repo")))
             if not os.path.exists(out):
                 print("%s: runner failed: %s" % (prop, p.stdout[-400:]))
                 continue
             hits = json.load(open(out))
-        per_prop[prop] = {os.path.basename(k): len(v) for k, v in hits.items()}
+        per_prop[prop + "/seed" + seed] = {os.path.basename(k): len(v) for k, v in hits.items()}
         for k, v in hits.items():
             total.setdefault(k, set()).update(v)
         print("%s traced (%d files touched)" % (prop, len(hits)), flush=True)
